@@ -76,6 +76,7 @@ def gen_component_cases(ctx: Ctx, n_templates: int, per_template: int):
     cases = []
     combos = [("disc", "disc"), ("box", "box"), ("disc", "box"), ("box", "disc")]
     kinds = list(tb.ALL_KINDS)
+    templates = []
     for i in range(n_templates):
         ak, ok = combos[i % 4]
         base = tb.gen_mdp(rng, ak, ok, mask=(rng.random() < 0.4))
@@ -87,8 +88,28 @@ def gen_component_cases(ctx: Ctx, n_templates: int, per_template: int):
                 stack = st
                 break
         stack = stack or tb.gen_stack(rng, base, 2, force_tl=0.25)
-        t = tb.with_stack(base, stack)
-        for j in range(per_template):
+        templates.append((tb.with_stack(base, stack), per_template))
+    # every ORDER of an action wrapper and an observation wrapper that changes observations (delegation through the stack: each
+    # wrapper must ask the wrapper below it, not the innermost environment), whatever the random stacks above contain
+    for okind in ("RescaleObservation", "TransformObservation", "FlattenObservation", "ClipObservation"):
+        for akind in ("ClipAction", "RescaleAction", "TransformAction"):
+            for order in (0, 1):
+                for (ak, ok) in combos:
+                    base = tb.gen_mdp(rng, ak, ok, mask=False)
+                    a, o = tb.base_spaces(base)
+                    st = []
+                    for k in ((okind, akind) if order == 0 else (akind, okind)):
+                        if not tb.compatible(k, a, o):
+                            st = None
+                            break
+                        w = tb.gen_wrapper(rng, k, a, o, base["nA"])
+                        st.append(w)
+                        a, o = tb.spaces_after(w, a, o)
+                    if st:
+                        templates.append((tb.with_stack(base, st), max(2, per_template // 3)))
+                        break
+    for t, per in templates:
+        for j in range(per):
             cfg = t if j == 0 else tb.vary(rng, t)
             cand = tb.candidate_actions(cfg)
             probes = []
